@@ -22,7 +22,7 @@ def run(rep, tier, seed, replay):
                        "(send budget is all-or-nothing per connection: blocked / unlimited), Close of a connection that is out of the read set",
                        "fetcher side (magnet): coq/C20/FetcherX.v is compared by output equality on single-provider cases with the delegator / RequestList "
                        "scheduling as an ORACLE (the requests the implementation wrote in each op are given to the model, which checks admissibility and tracks the "
-                       "outstanding set); several providers at once (leader / non-leader transfers) are oracle-only; coq/C20/Fetcher.v is the specification-level gate; "
+                       "outstanding set; compared up to and including the first tick of a case: the RequestList's stall handling on ticks is not modelled); several providers at once (leader / non-leader transfers) are oracle-only; coq/C20/Fetcher.v is the specification-level gate; "
                        "the model's hash is MD5 (OCaml Digest) where the code uses SHA-1: both are used only as 'equal iff same bytes'",
                        "RC4 streams: a third of the provider-side connections are MSE-negotiated (harness/common/mseinit.h, own RC4); the model speaks plaintext, the harness "
                        "compares the decrypted stream, partial writes are forced by w<i>:drip<k>",
@@ -96,7 +96,7 @@ def run(rep, tier, seed, replay):
             rep.violation(text, case=case, model=m, impl=o, theorem="property oracle C20 fetcher (magnet_completes_only_verified, ext ids of requests)", klass=kl)
         if G.single_provider(case):
             fsingle += 1
-            if m != o and not viol:
+            if G.fetch_compare_prefix(case, m) != G.fetch_compare_prefix(case, o) and not viol:
                 fmism += 1
                 mism += 1
                 rep.violation("correspondence broken (fetcher, single provider): model and implementation differ on this input (property oracle holds on it)",
